@@ -291,13 +291,20 @@ class Runner:
                         ok = False
             elif kind == "conv":
                 p = a[1]
-                if a[2] is None or not objs:
-                    cfg = None
-                    t = self.ol.convert_code_string(POOL[p])
-                else:
-                    o = a[2] % len(objs)
-                    cfg = (model[o]["unparser"], model[o]["expr_wrapper"], model[o]["if_style"])
-                    t = self.ol.convert_code_string(POOL[p], "<s>", objs[o])
+                try:
+                    if a[2] is None or not objs:
+                        cfg = None
+                        t = self.ol.convert_code_string(POOL[p])
+                    else:
+                        o = a[2] % len(objs)
+                        cfg = (model[o]["unparser"], model[o]["expr_wrapper"], model[o]["if_style"])
+                        t = self.ol.convert_code_string(POOL[p], "<s>", objs[o])
+                except Exception as e:
+                    # every pool program converts in a fresh process: a refusal here depends on history
+                    self.rec.violation("conversion-raised-after-history:" + type(e).__name__,
+                                       {"kind": "history", "history": history, "log_tail": self.log[-300:], "at": i}, str(e)[:200])
+                    ok = False
+                    continue
                 convs += 1
                 self.rec.count("conversions-compared")
                 ok = self.compare(p, cfg, t, history, i) and ok
